@@ -492,8 +492,12 @@ func (in *kinst) Apply(ev core.Event) map[string]any {
 			}
 		}
 		if raw < 0 {
-			acc = false // the peer has seen no request it could answer
-			break
+			// the peer has seen no request it could answer: an unsolicited reply (identifier 0 / the automaton's current one)
+			if in.s.Kind == "mgr" {
+				raw = 0
+			} else {
+				raw = lcpIdent(in.lcp)
+			}
 		}
 		magic := uint32(peerMagic)
 		switch w {
